@@ -12,6 +12,7 @@
       mode `check`: `R <id> eq=<0|1> [div=<k> model=<ev> impl=<ev>]`
 -/
 import Fc.Text
+import Fc.Holds
 
 open Fc
 
@@ -53,9 +54,14 @@ def finish (modeArg : String) (a : CaseAcc) : IO Unit := do
       IO.println "END"
     else
       let impl := canonDrop a.impl.toList
+      let c := a.toCase
+      let nch := a.scripts.foldl (fun m p => max m (p.1 + 1)) (if c.fam.isGroup then 0 else c.n)
+      let hs := match a.impl.toList.mapM (fun l => parseEv (words l)) with
+        | none => "parse=0"
+        | some evs => holdsText c nch evs.reverse
       match firstDiff model impl with
-      | none => IO.println s!"R {a.id} eq=1 len={model.length}"
-      | some (k, m, i) => IO.println s!"R {a.id} eq=0 div={k} model=[{m}] impl=[{i}]"
+      | none => IO.println s!"R {a.id} eq=1 len={model.length} {hs}"
+      | some (k, m, i) => IO.println s!"R {a.id} eq=0 div={k} model=[{m}] impl=[{i}] {hs}"
 
 partial def loop (modeArg : String) (h : IO.FS.Stream) (a : CaseAcc) : IO Unit := do
   let line ← h.getLine
